@@ -20,7 +20,15 @@ class _Cexptrk_Potential_Function(object):
     local_symbol_table = cexprtk.Symbol_Table({}, add_constants = True)
     parameter_names = self._potential_form_tuple.signature.parameter_names
     for pn in parameter_names:
-      local_symbol_table.variables[pn] = 1.0
+      try:
+        local_symbol_table.variables[pn] = 1.0
+      except KeyError as e:
+        # cexprtk refuses names that are not identifiers of its expression language
+        # (reserved words such as 'exp' or 'if', constants such as 'pi', names containing operators)
+        raise Potential_Form_Exception("'{name}' cannot be used as a parameter name of potential-form '{label}': {msg}".format(
+          name = pn,
+          label = self._potential_form_tuple.signature.label,
+          msg = e.args[0]))
     return local_symbol_table
 
   def register_function(self, func):
